@@ -93,6 +93,8 @@ def gen_c13(r, count, tier):
             t["pstdout"] = r.choice(["none", "none", "file"]) if term == "capture" else "none"   # capture pipes stdout itself
             t["stderr_to"] = False
         if t["pstdin"] == "pipe":
+            # (the driver writes the whole input before it starts reading: keep it well below a pipe's capacity)
+            data = data[:300]
             t["input"] = data
         elif t["pstdin"] == "file":
             t["filedata"] = data
